@@ -9,6 +9,10 @@ Open Scope Z_scope.
    otherwise 2^52 <= man < 2^53 and -1074 <= exp <= 971, or man < 2^52 and exp = -1074 *)
 Inductive f64 := F64 (neg : bool) (man exp : Z).
 
+(* Go's `if f == 0 { f = 0 }`: both zeros compare equal to 0, the assignment stores +0 *)
+Definition unsign_zero (f : f64) : f64 :=
+  let '(F64 _ m _) := f in if m =? 0 then F64 false 0 0 else f.
+
 (* JNil is Go's nil Canonicalable (what handleNextToken returns at EOF in the unfixed code) *)
 Inductive jv :=
 | JNil
@@ -53,6 +57,15 @@ Fixpoint strip (v : jv) : jv :=
   match v with
   | JArr l => JArr (map strip l)
   | JObj m => JObj (filter (fun kv => negb (is_null (snd kv))) (map (fun kv => (fst kv, strip (snd kv))) m))
+  | _ => v
+  end.
+
+(* the numbers of a value with the sign of every float zero dropped (-0.0 and 0.0 are the same number) *)
+Fixpoint unsign (v : jv) : jv :=
+  match v with
+  | JFloat f => JFloat (unsign_zero f)
+  | JArr l => JArr (map unsign l)
+  | JObj m => JObj (map (fun kv => (fst kv, unsign (snd kv))) m)
   | _ => v
   end.
 
